@@ -4,6 +4,7 @@ import (
 	"context"
 	"fmt"
 	"io/fs"
+	"reflect"
 	"runtime"
 	"strconv"
 	"strings"
@@ -55,7 +56,33 @@ func hDecls() native.Declarations {
 			}
 			ch <- s
 		},
+		// the callee-forms stream (gocallee.go): natives to start with go …
+		"Produce": func(ch chan int, v int) { ch <- v },
+		"Emit":    func(out chan string, s string) { out <- s },
+		"Box":     reflect.TypeOf(Box{}),
+		"NewBox":  func(k int) Box { return Box{K: k} },
+		// … and natives called afterwards, with results of every register class
+		"Twice":  func(n int) int { return 2 * n },
+		"Half":   func(x float64) float64 { return x / 2 },
+		"Pair":   func(n int) []int { return []int{n, n + 1} },
+		"Sum":    func(xs ...int) int { return sumInts(xs) },
+		"EnvAdd": func(env native.Env, a, b int) int { _ = env.Context(); return a + b },
+		"DivMod": func(a, b int) (int, int) { return a / b, a % b },
+		"Tag":    func(s string, n int) string { return s + strconv.Itoa(n) },
 	}
+}
+
+// Box is a native type with a method that sends (started with go as a method call).
+type Box struct{ K int }
+
+func (b Box) Send(ch chan int, v int) { ch <- v + b.K }
+
+func sumInts(xs []int) int {
+	s := 0
+	for _, x := range xs {
+		s += x
+	}
+	return s
 }
 
 type built struct{ p *scriggo.Program }
